@@ -4,8 +4,7 @@
    Model/Serial1Graph.v (GraphML document, node-link JSON, store, importer), tied to /repo on every run by
    harness/c01.py.
 
-   Reading aid:  through f g      = what format f does to the values of g (GraphML: line ends normalised; JSON: nothing)
-                 content g        = attribute dicts of the nodes + edges named by the NodeIDs of their ends + edge dicts
+   Reading aid:  content g        = attribute dicts of the nodes + edges named by the NodeIDs of their ends + edge dicts
                  restamp gid g    = g with GraphID := gid on every node
                  copy_of / copy_direct = the graph as it sits in the store after the import (fresh internal ids)
                  graph_wf         = node keys distinct, edge ends are nodes, dict keys distinct, strings XML-legal,
@@ -18,24 +17,10 @@ From FIM Require Import Proofs.Serial1Text Proofs.Serial1Doc Proofs.Serial1Store
 Import ListNotations.
 
 (* ================= text layer ================= *)
-(* every XML-legal string arrives at the reader with exactly its line ends normalised ... *)
-Theorem C01_text_escape_exact : forall s, xml_legal s = true -> text_trip s = Some (eol_norm s).
+(* every XML-legal string - carriage returns included - reaches the reader unchanged *)
+Theorem C01_text_escape_exact : forall s, xml_legal s = true -> text_trip s = Some s.
 Proof. exact text_trip_legal. Qed.
 Print Assumptions C01_text_escape_exact.
-
-(* ... hence unchanged when it holds no carriage return *)
-Theorem C01_text_escape_partial : forall s, xml_legal s = true -> no_cr s = true -> text_trip s = Some s.
-Proof. exact text_trip_no_cr. Qed.
-Print Assumptions C01_text_escape_partial.
-
-(* FULL STATEMENT (false of the code):  forall s, xml_legal s = true -> text_trip s = Some s *)
-Theorem C01_text_escape_cr_refuted : exists s, xml_legal s = true /\ text_trip s <> Some s.
-Proof. exact text_trip_cr_refuted. Qed.
-Print Assumptions C01_text_escape_cr_refuted.
-
-Theorem C01_text_loss_is_exactly_cr : forall s, xml_legal s = true -> (text_trip s = Some s <-> no_cr s = true).
-Proof. exact text_trip_exact. Qed.
-Print Assumptions C01_text_loss_is_exactly_cr.
 
 (* the label / labels attribute values survive the attribute escaping and normalisation *)
 Theorem C01_label_attribute_text : forall s, xml_legal s = true -> attr_out s = Some s.
@@ -43,34 +28,17 @@ Proof. exact attr_out_legal. Qed.
 Print Assumptions C01_label_attribute_text.
 
 (* ================= values ================= *)
-(* a str / int / bool value, written with the type chosen from its Python type, is read back as the same
-   value (strings: up to the line ends) *)
+(* a str / int / bool value, written with the type chosen from its Python type, is read back as the same value *)
 Theorem C01_value_roundtrip : forall v, val_legal v = true ->
-  match text_trip (text_of v) with Some t => read_value (ty_of v) t | None => None end = Some (norm_val v).
+  match text_trip (text_of v) with Some t => read_value (ty_of v) t | None => None end = Some v.
 Proof. exact value_roundtrip. Qed.
 Print Assumptions C01_value_roundtrip.
 
-Theorem C01_value_roundtrip_partial : forall v, val_legal v = true -> val_no_cr v = true ->
-  match text_trip (text_of v) with Some t => read_value (ty_of v) t | None => None end = Some v.
-Proof. exact value_roundtrip_no_cr. Qed.
-Print Assumptions C01_value_roundtrip_partial.
-
 (* ================= documents ================= *)
 Theorem C01_graphml_document_roundtrip : forall g, graph_wf g = true ->
-  exists d, serialize_graphml g = Some d /\ read_graphml d = Some (norm_graph g).
+  exists d, serialize_graphml g = Some d /\ read_graphml d = Some g.
 Proof. exact graphml_roundtrip. Qed.
 Print Assumptions C01_graphml_document_roundtrip.
-
-Theorem C01_graphml_document_roundtrip_partial : forall g, graph_wf g = true -> graph_no_cr g = true ->
-  exists d, serialize_graphml g = Some d /\ read_graphml d = Some g.
-Proof. exact graphml_roundtrip_no_cr. Qed.
-Print Assumptions C01_graphml_document_roundtrip_partial.
-
-(* FULL STATEMENT (false of the code): C01_graphml_document_roundtrip_partial without graph_no_cr *)
-Theorem C01_roundtrip_graphml_cr_refuted :
-  exists g, graph_wf g = true /\ forall d, serialize_graphml g = Some d -> read_graphml d <> Some g.
-Proof. exact graphml_roundtrip_cr_refuted. Qed.
-Print Assumptions C01_roundtrip_graphml_cr_refuted.
 
 Theorem C01_json_document_roundtrip : forall g, graph_json_ok g = true -> jread (jwrite g) = Some g.
 Proof. exact json_roundtrip. Qed.
@@ -82,85 +50,43 @@ Proof. exact graphml_label_markup. Qed.
 Print Assumptions C01_label_markup.
 
 (* ================= store + importer: the four entry points, both formats ================= *)
-(* import_graph_from_string / import_graph_from_file (new graph id gid'): exact effect for every well-formed
-   stored graph *)
+(* import_graph_from_string / import_graph_from_file (new graph id gid') *)
 Theorem C01_roundtrip_restamp : forall f ep s gid gid' g,
   is_direct ep = false -> store_wf s = true -> extract s gid = Some g ->
   fmt_ok f g = true -> graph_ids_ok g = true ->
-  exists t s',
+  exists t s' g',
     serialize_graph s gid f = Some (Some t)
     /\ import_via ep s t gid' = (s', ROk gid')
-    /\ extract s' gid' = Some (copy_of s gid' (through f g))
-    /\ content (copy_of s gid' (through f g)) = content (restamp gid' (through f g)).
+    /\ extract s' gid' = Some g'
+    /\ g' = copy_of s gid' g
+    /\ content g' = content (restamp gid' g).
 Proof. exact roundtrip_restamp. Qed.
 Print Assumptions C01_roundtrip_restamp.
 
 (* import_graph_from_string_direct / import_graph_from_file_direct (graph id kept) *)
 Theorem C01_roundtrip_direct : forall f ep s gid g,
   is_direct ep = true -> store_wf s = true -> extract s gid = Some g -> fmt_ok f g = true ->
-  forall gid', exists t s',
+  forall gid', exists t s' g',
     serialize_graph s gid f = Some (Some t)
-    /\ import_via ep s t gid' = (s', ROk (gid_through f gid))
-    /\ extract s' (gid_through f gid) = Some (copy_direct s (through f g))
-    /\ content (copy_direct s (through f g)) = content (through f g).
+    /\ import_via ep s t gid' = (s', ROk gid)
+    /\ extract s' gid = Some g'
+    /\ g' = copy_direct s g
+    /\ content g' = content g.
 Proof. exact roundtrip_direct. Qed.
 Print Assumptions C01_roundtrip_direct.
 
-(* node-link JSON: lossless, no restriction on the strings *)
-Theorem C01_roundtrip_json_restamp : forall ep s gid gid' g,
-  is_direct ep = false -> store_wf s = true -> extract s gid = Some g ->
-  graph_shape g = true -> graph_json_ok g = true -> graph_ids_ok g = true ->
-  exists t s' g', serialize_graph s gid JsonFmt = Some (Some t) /\ import_via ep s t gid' = (s', ROk gid')
-                  /\ extract s' gid' = Some g' /\ content g' = content (restamp gid' g).
-Proof. exact roundtrip_json_restamp. Qed.
-Print Assumptions C01_roundtrip_json_restamp.
-
-Theorem C01_roundtrip_json_direct : forall ep s gid g,
-  is_direct ep = true -> store_wf s = true -> extract s gid = Some g ->
-  graph_shape g = true -> graph_json_ok g = true ->
-  forall gid', exists t s' g', serialize_graph s gid JsonFmt = Some (Some t) /\ import_via ep s t gid' = (s', ROk gid)
-                  /\ extract s' gid = Some g' /\ content g' = content g.
-Proof. exact roundtrip_json_direct. Qed.
-Print Assumptions C01_roundtrip_json_direct.
-
-(* GraphML: lossless for graphs without a carriage return *)
-Theorem C01_roundtrip_graphml_restamp_partial : forall ep s gid gid' g,
-  is_direct ep = false -> store_wf s = true -> extract s gid = Some g ->
-  graph_wf g = true -> graph_no_cr g = true -> graph_ids_ok g = true ->
-  exists t s' g', serialize_graph s gid GraphMLFmt = Some (Some t) /\ import_via ep s t gid' = (s', ROk gid')
-                  /\ extract s' gid' = Some g' /\ content g' = content (restamp gid' g).
-Proof. exact roundtrip_graphml_restamp_partial. Qed.
-Print Assumptions C01_roundtrip_graphml_restamp_partial.
-
-Theorem C01_roundtrip_graphml_direct_partial : forall ep s gid g,
-  is_direct ep = true -> store_wf s = true -> extract s gid = Some g ->
-  graph_wf g = true -> graph_no_cr g = true ->
-  forall gid', exists t s' g', serialize_graph s gid GraphMLFmt = Some (Some t) /\ import_via ep s t gid' = (s', ROk gid)
-                  /\ extract s' gid = Some g' /\ content g' = content g.
-Proof. exact roundtrip_graphml_direct_partial. Qed.
-Print Assumptions C01_roundtrip_graphml_direct_partial.
-
-(* FULL STATEMENT (false of the code): C01_roundtrip_graphml_restamp_partial without graph_no_cr *)
-Theorem C01_roundtrip_graphml_store_cr_refuted :
-  exists s gid gid' g,
-    store_wf s = true /\ extract s gid = Some g /\ graph_wf g = true /\ graph_ids_ok g = true
-    /\ forall t s' g', serialize_graph s gid GraphMLFmt = Some (Some t) -> import_via EString s t gid' = (s', ROk gid') ->
-                       extract s' gid' = Some g' -> content g' <> content (restamp gid' g).
-Proof. exact roundtrip_graphml_store_cr_refuted. Qed.
-Print Assumptions C01_roundtrip_graphml_store_cr_refuted.
-
 (* ================= serializing the copy again ================= *)
-(* the second text denotes exactly the imported copy: the second pass loses nothing, whatever the first did *)
+(* the second text denotes exactly the imported copy, whose content is that of the first text (up to the stamp) *)
 Theorem C01_reserialize_stable_restamp : forall f s gid' g,
   fmt_ok f g = true -> gid_ok f gid' = true ->
-  let copy := copy_of s gid' (through f g) in
+  let copy := copy_of s gid' g in
   exists t2, serialize f copy = Some t2 /\ text_graph t2 = Some copy.
 Proof. exact reserialize_restamp. Qed.
 Print Assumptions C01_reserialize_stable_restamp.
 
 Theorem C01_reserialize_stable_direct : forall f s g,
   fmt_ok f g = true ->
-  let copy := copy_direct s (through f g) in
+  let copy := copy_direct s g in
   exists t2, serialize f copy = Some t2 /\ text_graph t2 = Some copy.
 Proof. exact reserialize_direct. Qed.
 Print Assumptions C01_reserialize_stable_direct.
@@ -171,7 +97,7 @@ Print Assumptions C01_reserialize_stable_direct.
 Theorem C01_validates_after_import_restamp : forall jsonok f ep s gid gid' g,
   (forall v, jsonok P_GraphID v = true) ->
   is_direct ep = false -> store_wf s = true -> extract s gid = Some g ->
-  fmt_ok f g = true -> fmt_no_cr f g = true -> graph_ids_ok g = true -> validate jsonok g = true ->
+  fmt_ok f g = true -> graph_ids_ok g = true -> validate jsonok g = true ->
   exists t s' g', serialize_graph s gid f = Some (Some t) /\ import_via ep s t gid' = (s', ROk gid')
                   /\ extract s' gid' = Some g' /\ validate jsonok g' = true.
 Proof. exact validates_after_import_restamp. Qed.
@@ -179,7 +105,7 @@ Print Assumptions C01_validates_after_import_restamp.
 
 Theorem C01_validates_after_import_direct : forall jsonok f ep s gid g,
   is_direct ep = true -> store_wf s = true -> extract s gid = Some g ->
-  fmt_ok f g = true -> fmt_no_cr f g = true -> validate jsonok g = true ->
+  fmt_ok f g = true -> validate jsonok g = true ->
   forall gid', exists t s' g', serialize_graph s gid f = Some (Some t) /\ import_via ep s t gid' = (s', ROk gid)
                   /\ extract s' gid = Some g' /\ validate jsonok g' = true.
 Proof. exact validates_after_import_direct. Qed.
@@ -202,9 +128,9 @@ Print Assumptions C01_store_invariant_import.
 
 (* ================= non-vacuity ================= *)
 (* ex_graph (Model/Serial1Graph.v): quotes, markup, references, non-ASCII (BMP and astral), leading/trailing
-   blanks, an empty string, TAB and LF, a negative and a huge int and a bool; ex_store holds it next to another graph *)
+   blanks, an empty string, TAB, CR LF and a lone CR, a negative and a huge int and a bool; ex_store holds it next to another graph *)
 Example C01_nonvacuous_hypotheses :
-  store_wf ex_store = true /\ graph_wf ex_graph = true /\ graph_no_cr ex_graph = true /\ graph_ids_ok ex_graph = true
+  store_wf ex_store = true /\ graph_wf ex_graph = true /\ graph_ids_ok ex_graph = true
   /\ fmt_ok JsonFmt ex_graph = true /\ gid_ok GraphMLFmt (S"new id") = true
   /\ option_map content (extract ex_store (S"g")) = Some (content ex_graph)
   /\ validate (fun _ _ => true) ex_graph = true.
@@ -230,10 +156,16 @@ Example C01_nonvacuous_run :
     end.
 Proof. intros [|] [| | |]; vm_compute; repeat split. Qed.
 
-(* the carriage-return witness, computed: the value comes back with LF *)
-Example C01_cr_witness_value :
+(* the graph that lost its carriage return before fix 10c1448, computed: the value comes back with its CR *)
+Example C01_cr_value_kept :
   match serialize_graphml cr_witness with
   | Some d => option_map (fun g => map (fun n => pget 10%N (snd n)) (g_nodes g)) (read_graphml d)
   | None => None
-  end = Some [Some (PStr [97; 10; 98]%N)].
+  end = Some [Some (PStr [97; 13; 98]%N)].
+Proof. vm_compute. reflexivity. Qed.
+
+(* text that is not XML (here a vertical tab) makes serialization raise: the hypothesis xml_legal is needed *)
+Example C01_illegal_text_refused :
+  serialize_graphml {| g_nodes := [(1%N, [(P_NodeID, PStr (S"n")); (P_Class, PStr (S"C")); (10%N, PStr [97; 11; 98]%N)])];
+                       g_edges := [] |} = None.
 Proof. vm_compute. reflexivity. Qed.
